@@ -51,7 +51,9 @@ def gen_call(rng, prog=None, vers=None, proc=None, maxauth=40):
     args = bytes(rng.getrandbits(8) for _ in range(4 * rng.randrange(0, 6))) if rng.random() < 0.5 else b""
     if prog == PMAP and proc in (1, 2, 3) and rng.random() < 0.6:
         args = pmap_args(rng, vers)
-    m = call(xid, prog, vers, proc, cred, verf, args, cred_flavor=rng.choice([0, 1]), verf_flavor=0)
+    # AUTH_NONE / AUTH_SYS / AUTH_SHORT / AUTH_DH / RPCSEC_GSS / unassigned flavors: the responder does not authenticate anybody
+    m = call(xid, prog, vers, proc, cred, verf, args, cred_flavor=rng.choice([0, 1, 1, 2, 3, 6, 7, rng.getrandbits(32)]),
+             verf_flavor=rng.choice([0, 0, 0, 2, 3, 6, rng.getrandbits(32)]))
     return {"xid": xid, "prog": prog, "vers": vers, "proc": proc, "msg": m,
             "trigger": 24 + 8 + cl + 8 + vl - 1}      # index (in msg) of the last byte of the verifier
 
